@@ -362,12 +362,15 @@ pub struct CliCase {
   pub files: Vec<(String, Vec<u8>)>,
   /// other options of create riding along (they must not influence the hashed layout)
   pub noise: Vec<String>,
+  /// every other file (or the single file) is reached through a symbolic link and `--follow-symlinks` is given: the
+  /// content is what is behind the link, however short the link's own text
+  pub links: bool,
 }
 
 impl CliCase {
   pub fn to_json(&self) -> Value {
     json!({
-      "kind": "cli", "p": self.p, "md5": self.md5, "shape": self.shape, "other_options": self.noise,
+      "kind": "cli", "p": self.p, "md5": self.md5, "shape": self.shape, "other_options": self.noise, "through_symlinks": self.links,
       "files": self.files.iter().map(|(n, d)| json!({"path": n, "hex": hex(d)})).collect::<Vec<_>>(),
     })
   }
@@ -376,6 +379,7 @@ impl CliCase {
       p: v.get("p")?.as_u64()?,
       md5: v.get("md5")?.as_bool()?,
       shape: v.get("shape")?.as_str()?.to_string(),
+      links: v.get("through_symlinks").and_then(|b| b.as_bool()).unwrap_or(false),
       noise: v.get("other_options").and_then(|a| a.as_array()).map(|a| a.iter().filter_map(|x| x.as_str().map(|s| s.to_string())).collect()).unwrap_or_default(),
       files: v
         .get("files")?
@@ -407,7 +411,8 @@ fn gen_cli(rng: &mut Rng) -> CliCase {
     files.push(("content".to_string(), rng.bytes(sz)));
   }
   let noise = super::create_noise(rng, &["--md5", "--no-creation-date"]);
-  CliCase { p, md5, shape: shape.to_string(), files, noise }
+  let links = shape != "stdin" && rng.chance(1, 4);
+  CliCase { p, md5, shape: shape.to_string(), files, noise, links }
 }
 
 /// Extract (pieces, [(path components, length, md5)]) from a torrent's info dict.
@@ -452,6 +457,9 @@ fn create_args(c: &CliCase, input: &str) -> Vec<String> {
     a.push("--md5".into());
   }
   a.extend(c.noise.iter().cloned());
+  if c.links {
+    a.push("--follow-symlinks".into());
+  }
   a
 }
 
@@ -460,9 +468,25 @@ pub fn check_cli(ctx: &Ctx, c: &CliCase) -> Option<String> {
   let out = match c.shape.as_str() {
     "dir" => {
       sb.mkdir("content");
-      for (n, d) in &c.files {
-        sb.write(&format!("content/{n}"), d);
+      for (i, (n, d)) in c.files.iter().enumerate() {
+        if c.links && i % 2 == 0 {
+          // the bytes live outside the tree under a short name; the tree holds a link to them
+          let store = format!("s/{i}");
+          sb.write(&store, d);
+          let link = sb.path(&format!("content/{n}"));
+          if let Some(parent) = link.parent() {
+            let _ = std::fs::create_dir_all(parent);
+          }
+          let _ = std::os::unix::fs::symlink(sb.path(&store), &link);
+        } else {
+          sb.write(&format!("content/{n}"), d);
+        }
       }
+      Cmd::args_owned(&ctx.imdl, create_args(c, "content")).cwd(&sb.root).run()
+    }
+    "file" if c.links => {
+      sb.write("s/0", &c.files[0].1);
+      let _ = std::os::unix::fs::symlink("s/0", sb.path("content"));
       Cmd::args_owned(&ctx.imdl, create_args(c, "content")).cwd(&sb.root).run()
     }
     "file" => {
